@@ -226,3 +226,36 @@ func isMutexType(t types.Type) bool {
 	n := NamedOf(t)
 	return n != nil && n.Obj().Pkg() != nil && n.Obj().Pkg().Path() == "sync" && (n.Obj().Name() == "Mutex" || n.Obj().Name() == "RWMutex")
 }
+
+// emitsEvent: the instruction is a pushers.Channel.Send, or a call of an in-repo function on every return path of which
+// one executes (helpers such as reportCommand(conn, cmd) extracted from a handler).
+func emitsEvent(in ssa.Instruction, depth int) bool {
+	if isChannelSend(in) {
+		return true
+	}
+	call, ok := in.(ssa.CallInstruction)
+	if !ok || depth > 2 {
+		return false
+	}
+	f := call.Common().StaticCallee()
+	if f == nil || !InRepo(f) || f.Blocks == nil {
+		return false
+	}
+	for _, b := range f.Blocks {
+		for _, x := range b.Instrs {
+			if !emitsEvent(x, depth+1) {
+				continue
+			}
+			all := true
+			for _, r := range Returns(f) {
+				if !b.Dominates(r.Block()) {
+					all = false
+				}
+			}
+			if all {
+				return true
+			}
+		}
+	}
+	return false
+}
